@@ -57,7 +57,9 @@ type Sub[C any] struct {
 	Name string // sub-check name
 	// N is the number of rapid cases in the quick tier at scale 1 (summed over shards).
 	N int
-	// ThoroughFactor multiplies N in the thorough tier (default 50).
+	// MaxN caps the number of cases summed over shards whatever the scale (0 = no cap): for sub-checks
+	// whose cases are expensive (child processes), so that the thorough tier stays bounded.
+	MaxN int
 	Gen   func(t *rapid.T) C
 	Check func(c C) (Info, error)
 	// Require lists classes that must have been hit at least once (vacuity guard).
@@ -274,6 +276,9 @@ func Run[C any](t *testing.T, s Sub[C]) {
 	_, nsh := Shard()
 	n := float64(s.N) * *flagScale / float64(nsh)
 	cnt := int(n)
+	if s.MaxN > 0 && cnt > s.MaxN/nsh {
+		cnt = s.MaxN / nsh
+	}
 	if cnt < 1 {
 		cnt = 1
 	}
